@@ -206,6 +206,13 @@ zix_copy_file(ZixAllocator* const  allocator,
     return finish_copy(-1, src_fd, ZIX_STATUS_BAD_ARG);
   }
 
+  // Fail if the destination is the source (it would be truncated below)
+  struct stat old_stat;
+  if (!stat(dst, &old_stat) && old_stat.st_dev == src_stat.st_dev &&
+      old_stat.st_ino == src_stat.st_ino) {
+    return finish_copy(-1, src_fd, ZIX_STATUS_EXISTS);
+  }
+
   // Open a new destination file
   const bool  overwrite = (options == ZIX_COPY_OPTION_OVERWRITE_EXISTING);
   const int   dst_flags = O_WRONLY | O_CREAT | (overwrite ? O_TRUNC : O_EXCL);
